@@ -333,7 +333,6 @@ RECIPES = {
     "kids-mutual-recursion": (C0, [U(0, "d", "e", "/a"), U(0, "d", "f", "/a/b"), U(0, "d", "e", "/a/b/c")], "recursion"),
     "path-without-id": (C0, [U(0, "f", "i1", "/a"), ("O", 0, 0, None)], "path_without_id"),
     "pending-flag-without-id": (C0, [U(0, "f", "i1", "/a"), ("C", 0, 1, 5), ("O", 0, 0, None)], "pending_no_id"),
-    "reload-indexes-absent-side": (C0, [U(0, "f", "i1", "/a"), ("RL",), ("O", 0, 1, "r1")], "stale_none_slot"),
     # repaired by fix B (direct `_changed = 0` write)
     "changed-hook-mutual-recursion": (C0, [U(0, "f", "i1", "/a"), ("C", 0, 1, 1), ("O", 0, 0, None), ("C", 0, 0, None)], "recursion"),
     "pending-without-flag": (C0, [U(0, "f", "i1", "/a"), ("MK", 0, 1), ("C", 0, 0, None)], "pending_unflagged"),
@@ -341,6 +340,8 @@ RECIPES = {
     "pending-holds-forgotten": (C0, [U(0, "f", "i1", "/a"), ("FG", 0, "i1")], "pending_forgotten"),
     "forget-leaves-empty-bucket": (C0, [U(0, "f", "i1", "/a"), ("FG", 0, "i1")], "empty_bucket"),
     "forget-pathless-keyerror": (C0, [U(0, "f", "i1", None), ("FG", 0, "i1")], "keyerror"),
+    # repaired by eec8a73 (loader no longer indexes absent sides under None)
+    "reload-indexes-absent-side": (C0, [U(0, "f", "i1", "/a"), ("RL",), ("O", 0, 1, "r1")], "stale_none_slot"),
     # repaired by f72ed8c
     "update-kids-self-recursion": (C0, [U(0, "d", "o", "/a"), U(0, "d", "o", "/a/b")], "not_at_a_b"),
 }
@@ -374,7 +375,8 @@ def replay_finding(R, ident):
     if kind == "empty_bucket":
         return any(not b for b in st._paths[0].values())
     if kind == "stale_none_slot":
-        return any(x is e and e[1]._oid != k for p, b in st._paths[1].items() for k, x in b.items())
+        return (None in st._oids[1] or None in st._paths[1]
+                or any(x is e and e[1]._oid != k for p, b in st._paths[1].items() for k, x in b.items()))
     raise HarnessError(kind)
 
 
@@ -577,7 +579,8 @@ def directed_sequences(oip):
         [ev(A, pA), ("I", 0, "d"), ev(C, pA, prior=Z)],                                       # stale entry matched by path, un-ignored
         [ev(A, pA), ("I", 0, "c"), ev(C, pA, prior=Z)],                                       # … a conflicted one: AssertionError
         [ev(A, pA, ot="d"), ev(B, pB), ("I", 0, "d"), ev(A, pC, ot="d"), ev(A, pA, ex="F", ot="n")],  # discarded entry replaced (path ids)
-        [ev(A, pA, ex="F"), ev(A, pA), ev(A, pA), ev(A, pA, ex="F"), ev(A, pA, ex="e")],       # TRASHED -> LIKELY_TRASHED -> EXISTS
+        [ev(A, pA, ex="F"), ev(A, pA), ev(A, pA), ev(A, pA, ex="F"), ev(A, pA, ex="e")],       # TRASHED -> LIKELY_TRASHED, tombstone kept (406cddf)
+        [ev(A, pA, ex="F"), ev(A, pA, ex="~"), ev(A, pA, ex="e"), ev(A, pA, ex="F"), ev(A, pA, ex="t"), ev(A, pA, ex="m")],  # `exists is not False`
     ]
 
 
